@@ -21,18 +21,19 @@ META = dict(
          "should_cancel_entry answers), fills and price moves up to the stated depth around price 20000 (2 ticks = near, 4 = "
          "far) and checks after every action that each submission carries a declared row's quantity and price with the type "
          "given by the 0.015 % rule, that exits are reduce-only on the closing side, that active stop-loss/take-profit orders "
-         "map injectively onto the latest declaration (and every declared row has an order) at after(), that nothing exit-like "
+         "map injectively onto the latest declaration (and every declared row has an order) at after() - in recorded runs also at the next before() -, that nothing exit-like "
          "survives a close and that resting entries are cancelled iff should_cancel_entry(). The same operators judge recorded "
          "executions of the real code: model behaviours replayed action by action (state projection compared by TLC) and "
          "backtests with random policies incl. prices within +-4 ticks of the boundary. Bounded scope; the boundary itself "
          "(exactly 0.015 %) is a float knife edge and is skipped and counted.",
     note="Trusted: TLC, the recorder (wrappers around Order.__init__/execute/cancel, strategy callbacks), the JSON encoder. "
-         "Futures, 1m routes, cross margin, balances large enough that no order is rejected; strategies use only the "
+         "Futures (cross and isolated margin incl. the simulator's liquidation orders, which are exempt from routing), fee-free spot; "
+         "trading routes 1m/5m/15m/1h with data routes, both simulators; balances large enough that no entry is rejected; strategies use only the "
          "declarative API. Market entries carry the price of the moment (not the declared one) - matched by quantity and the "
          "near rule.",
     design_ref="4/C10")
 
-KINDS_Q = ["near", "ladder", "sized", "two", "half", "wrong", "tf5", "spot", "near", "fast", "fast2"]
+KINDS_Q = ["near", "ladder", "sized", "two", "half", "wrong", "tf5", "spot", "near", "fast", "fast2", "iso", "tf15", "tf60", "over"]
 
 
 def run(ctx):
@@ -43,23 +44,21 @@ def run(ctx):
     samples = []
     # ---------------------------------------------------------------- M
     depth = ctx.pick(9, 12)
-    jobs = [("tree model, menus without wrong-side/oversize rows, all C10 invariants",
-             dict(depth=depth, edit=1, invariants=K.INV_C10)),
-            ("tree model, two-point entries + partial take-profits (oversize reduce-only exits), all C10 invariants",
-             dict(depth=ctx.pick(8, 10), multi=True, oversize=True, edit=ctx.pick(0, 1), maxord=8, invariants=K.INV_C10)),
-            ("repaired model (reduce-only replacement, clamped reduce-only fills), full menus, all C10 invariants",
-             dict(depth=ctx.pick(8, 10), multi=True, oversize=True, wrong=True, edit=ctx.pick(1, 2), maxord=8, rrepl=True, rclamp=True,
-                  invariants=K.INV_C10)),
-            # expected counter-examples of the tree model (named deviation and its consequences); replayed below
-            ("tree model, wrong-side rows: ExitsReduceOnly", dict(depth=8, wrong=True, edit=0, invariants=["ExitsReduceOnly"])),
-            ("tree model, wrong-side oversize rows (flip ping-pong): NoLivelock",
-             dict(depth=8, multi=True, wrong=True, edit=0, maxord=20, invariants=["NoLivelock"]))]
+    FULL = dict(multi=True, oversize=True, wrong=True, maxord=8)
+    jobs = [("model of the tree (reduce-only replacement 5ca726f8, clamped reduce-only fills eed2d42c), full menus: two-point entries, "
+             "partial take-profits, oversize and wrong-side rows, edits in every hook; all C10 invariants",
+             dict(depth=ctx.pick(10, 12), edit=ctx.pick(1, 2), invariants=K.INV_C10, **FULL)),
+            ("model of the tree, one-point entries, deeper; all C10 invariants", dict(depth=ctx.pick(10, 13), edit=1, invariants=K.INV_C10)),
+            # the model of the tree BEFORE the two repairs: its counter-examples are replayed below and must NOT be reproduced any more
+            ("pre-fix model, wrong-side rows: ExitsReduceOnly", dict(depth=8, wrong=True, edit=0, rrepl=False, rclamp=False, invariants=["ExitsReduceOnly"])),
+            ("pre-fix model, wrong-side oversize rows (flip ping-pong): NoLivelock",
+             dict(depth=8, multi=True, wrong=True, edit=0, maxord=20, rrepl=False, rclamp=False, invariants=["NoLivelock"]))]
     rs = tlc.run_parallel([dict(module="StrategyLayer", cfg_text=K.model_cfg(**kw), workers=ctx.pick(2, 4), coverage=(i == 0),
                                 timeout=ctx.pick(600, 1500)) for i, (lab, kw) in enumerate(jobs)], max_procs=5)
     cex = []
     for (lab, kw), r in zip(jobs, rs):
         ctx.add_tlc(r, lab)
-        expected = lab.startswith("tree model, wrong-side")
+        expected = lab.startswith("pre-fix model")
         if r.violation and not expected:
             raise Machinery("StrategyLayer.tla violates %s in the instance '%s' (model and intended design disagree)\n%s"
                             % (r.violation["name"], lab, r.raw[-2500:]))
@@ -69,7 +68,8 @@ def run(ctx):
     never = [a for a, (d, g) in rs[0].coverage.items() if g == 0 and a in ("Move", "Fill", "StepA", "StepB", "FlushOne", "Term1", "Term2", "Term3")]
     if never:
         raise Machinery("vacuity: actions never taken in the clean instance: %s" % never)
-    ctx.coverage["non_vacuity_witnesses_shortest_history"] = K.witnesses(ctx, K.WIT_C10, **{k: v for k, v in jobs[0][1].items() if k != "invariants"})
+    ctx.coverage["non_vacuity_witnesses_shortest_history"] = K.witnesses(ctx, K.WIT_C10 + ["LongCycle3", "Reduced"],
+                                                                         **{k: v for k, v in jobs[0][1].items() if k != "invariants"})
     # ---------------------------------------------------------------- R
     items = []
     for j, (lab, inv, h) in enumerate(cex):
@@ -80,10 +80,7 @@ def run(ctx):
     reproduced = len(ctx.violations) > before
     ctx.coverage["model_counterexamples"] = [{"instance": lab, "invariant": inv, "actions": [a["a"] for a in h]} for lab, inv, h in cex]
     ctx.coverage["model_counterexamples_reproduced_by_the_code"] = reproduced
-    if cex and not reproduced:
-        ctx.notes.append("the tree model's counter-examples (wrong-side market replacement) are not reproduced by the code: "
-                         "the code behaves like the repaired model")
-    hists, rsim = K.simulated_histories(ctx, ctx.pick(120, 1500), ctx.pick(12, 16), ctx.seed, edit=ctx.pick(1, 2) if not reproduced else 1)
+    hists, rsim = K.simulated_histories(ctx, ctx.pick(120, 1500), ctx.pick(12, 16), ctx.seed, edit=ctx.pick(1, 2), **FULL)
     sim_items = [{"id": 200000 + j, "hist": h, "B": K.BASE, "src": "simulated behaviour", "compare": True} for j, h in enumerate(hists)]
     sim_traces, sim_ids = K.run_replays(ctx, sim_items, compare=True)
     bad_r, st_r = K.judge(ctx, "TraceRouting", sim_traces, "R-sim", sim_ids, parts=ctx.pick(4, 12))
@@ -94,7 +91,7 @@ def run(ctx):
         samples.append({"kind": "R: model behaviour replayed on the real Strategy", "actions": [a["a"] for a in sim_items[t0["id"] - 200000]["hist"]],
                         "events": [{k: v for k, v in e.items() if k != "act"} for e in t0["ev"][:14]]})
     # ---------------------------------------------------------------- T
-    items = K.vivo_items(ctx, ctx.pick(130, 1500), KINDS_Q, ctx.pick(240, 400))
+    items = K.vivo_items(ctx, ctx.pick(150, 1500), KINDS_Q, ctx.pick(240, 400))
     traces, by_id = K.run_vivo(ctx, items)
     bad_t, st_t = K.judge(ctx, "TraceRouting", traces, "T", by_id, parts=ctx.pick(8, 14))
     nsub = sum(x[2] for x in st_t)
